@@ -3,7 +3,7 @@ PROP = {'engine': 'stack',
  'test': 'TestC04',
  'level': 'exploration',
  'quick': {'checks': 240, 'shards': 12, 'timeout': 1200},
- 'thorough': {'checks': 3000, 'shards': 14, 'timeout': 3400},
+ 'thorough': {'checks': 8000, 'shards': 14, 'timeout': 3400},
  'rule': 'rapid draws 0-3 external extensions with subscriptions from {INVOKE, SHUTDOWN}, optionally one INVOKE-subscribed internal extension, 2-4 '
          "consecutive invocations and, per invocation, a random order (R.response before R.next) in which the runtime's response, the runtime's next "
          'and the next of every subscribed extension happen, the last party held back behind a 30-100 ms quiet window; trace header random or '
